@@ -109,6 +109,7 @@ def c17_streams(tier, rng):
         if thorough:
             shapes.append([1 + r.below(40) for _ in range(n)])
     did = 0
+    imgcases = []
     for lens in shapes:
         for logr in ((1, 7, 8, 13, 20, 32) if thorough else r.sample([1, 7, 8, 13, 20, 32], 2)):
             hi = min((1 << logr) - 1, (1 << 31) - 1)   # the constructor takes `int*`: negative entries are separators
@@ -116,8 +117,25 @@ def c17_streams(tier, rng):
             enc = ";".join(",".join(str(x) for x in sq) for sq in L)
             ops = [["dac", logr, enc], ["dac", logr, enc, "reload"]]
             cases.append(("dac%d" % did, "dac", "-", {}, [], ops))
+            imgcases.append(("dimg%d" % did, "dacimg", "-", {}, [], [["dimg", logr, enc]]))
             did += 1
-    return [StreamSet("codecs", "asan", cases)]
+    return [StreamSet("codecs", "asan", cases), StreamSet("dac-image", "asan", imgcases, phase2=dacimg_phase2)]
+
+
+def dacimg_phase2(case, impl_lines):
+    """The saved DAC_VLS image and the fields of the real object -> the Lean validator (byte-level model of
+    save/load: the fields must serialise to exactly these bytes and the bytes must parse back to the fields)."""
+    ops = []
+    for l in impl_lines:
+        t = l.split()
+        if len(t) >= 6 and t[1] == "DI":
+            d = dict(x.split("=", 1) for x in t[2:])
+            ops.append(["dichk"] + [d.get(k, "-") for k in ("img", "tam", "ll", "nl", "bb", "li", "lv", "rl", "bn", "bf", "bd", "br")])
+        elif not l.startswith("FAULT"):
+            ops.append(["dichk"] + ["-"] * 12)
+    while len(ops) < len(case[5]):
+        ops.append(["dichk"] + ["-"] * 12)
+    return ops
 
 
 PROPS = {
